@@ -49,8 +49,48 @@ FAMILIES = {
 }
 
 
+def confirm_integration(h, ov, logdir, replay_path, testfile):
+    """Run a native integration test file (real crates, public API) in a plain copy of the tree under test."""
+    import shutil
+    src = getattr(ov, "repo_copy", None) or ov.dir
+    work = os.path.join(os.path.dirname(ov.dir), "native-" + h.name)
+    shutil.rmtree(work, ignore_errors=True)
+    # a clean copy of the tree under test (the overlay may carry model crates / injected modules)
+    subprocess.run(["rsync", "-a", "--exclude", "/target", "--exclude", "/.git", X.REPO.rstrip("/") + "/", work + "/"], check=True)
+    testfile, _, tfilter = testfile.partition(":")
+    name = os.path.splitext(testfile)[0]
+    shutil.copy(os.path.join(X.ROOT, "replay", testfile), os.path.join(work, "tests", testfile))
+    env = dict(X.ENV)
+    env["CARGO_TARGET_DIR"] = os.path.join(os.path.dirname(ov.dir), "t-native-int")
+    lf = os.path.join(logdir, h.name + ".native.log")
+    try:
+        with open(lf, "w") as f:
+            subprocess.run(["cargo", "test", "--offline", "--test", name] + ([tfilter] if tfilter else []) + ["--", "--test-threads", "1"], cwd=work, stdout=f,
+                           stderr=subprocess.STDOUT, env=env, timeout=1200)
+    except subprocess.TimeoutExpired:
+        return None, "native replay timed out (see %s)" % lf
+    out = open(lf, errors="replace").read()
+    shutil.rmtree(work, ignore_errors=True)
+    with open(replay_path, "a") as f:
+        f.write("\n// ---- native confirmation through the real crates and the public API ----\n")
+        f.write("// run-native: cp /verif/replay/%s <xt checkout>/tests/ && cargo test --offline --test %s\n" % (testfile, name))
+        for line in re.findall(r"^\d+ violations, first:.*$|^.*panicked at.*\n.*$", out, re.M)[:5]:
+            f.write("// " + line.replace("\n", " ")[:600] + "\n")
+    if re.search(r"test result: FAILED", out):
+        mm = re.findall(r"^(\d+ violations, first:.*)$", out, re.M) or [x.replace("\n", " ") for x in re.findall(r"panicked at [^\n]*\n([^\n]*)", out)]
+        return True, (mm[0][:300] if mm else "native test failed (see %s)" % lf)
+    if re.search(r"test result: ok\. [1-9]", out):
+        return False, "the native single-fault sweep through the real crates finds nothing"
+    return None, "native replay did not run (see %s)" % lf
+
+
+INTEGRATION = {"stream": "stream_native.rs", "f2": "defects_native.rs:f2_", "f3": "defects_native.rs:f3_"}
+
+
 def confirm(h, ov, vals, logdir, replay_path):
     fam = h.replay
+    if fam in INTEGRATION:
+        return confirm_integration(h, ov, logdir, replay_path, INTEGRATION[fam])
     if fam not in FAMILIES:
         return None, "no native replay for family %s" % fam
     modfile, testfile, testname = FAMILIES[fam]
